@@ -333,6 +333,7 @@ pub fn log_uniform(lo_exp: f64, hi_exp: f64) -> impl Strategy<Value = f32> {
 
 pub fn cycle_strategy() -> impl Strategy<Value = f32> {
     prop_oneof![
+        2 => prop::sample::select(vec![1.0f32, 2.0, 0.5, 4.0, 1.0, 1.0]),
         4 => dyadic(64, 4),
         3 => prop::sample::select(vec![0.1f32, 0.25, 0.3, 0.5, 1.0, 1.5, 2.0, 5.0, 20.0]),
         2 => log_uniform(-3.0, 6.0),
@@ -405,7 +406,31 @@ pub fn kf_strategy(ez: impl Strategy<Value = Ez>) -> impl Strategy<Value = KfDes
 }
 
 pub fn tl_strategy_with(timing: impl Strategy<Value = Timing>, max_kfs: usize) -> impl Strategy<Value = TlDesc> {
-    (timing, ez_strategy(), prop::collection::vec(kf_strategy(ez_strategy()), 0..=max_kfs)).prop_map(|(timing, default_ez, kfs)| TlDesc { timing, default_ez, kfs }.sanitize())
+    // shape of the keyframe list: usually 0..=max, sometimes one keyframe is moved to within a few
+    // ulps of another (near-coincident but distinct positions), rarely a large list (> 32 keyframes
+    // on a coarse grid, i.e. with many repeated positions)
+    let small = prop::collection::vec(kf_strategy(ez_strategy()), 0..=max_kfs);
+    let near = (prop::collection::vec(kf_strategy(ez_strategy()), 2..=max_kfs.max(2)), any::<u16>(), any::<u16>(), 1i32..=4, any::<bool>()).prop_map(|(mut kfs, i, j, n, up)| {
+        let (i, j) = (mv_engine::pick_idx(i, kfs.len()), mv_engine::pick_idx(j, kfs.len()));
+        if i != j {
+            let p = mv_model::step32(kfs[i].pos, if up { n } else { -n });
+            if (0.0..=1.0).contains(&p) {
+                kfs[j].pos = p;
+            }
+        }
+        kfs
+    });
+    let (lo, hi) = if max_kfs >= 8 { (33usize, 70usize) } else { (0, max_kfs) };
+    let large = prop::collection::vec(kf_strategy(ez_strategy()), lo..=hi).prop_map(|mut kfs| {
+        for (n, k) in kfs.iter_mut().enumerate() {
+            // coarse grid: plenty of repeated positions
+            k.pos = ((k.pos * 16.0).round() / 16.0).clamp(0.0, 1.0);
+            let _ = n;
+        }
+        kfs
+    });
+    let kfs = prop_oneof![16 => small, 3 => near, 1 => large];
+    (timing, ez_strategy(), kfs).prop_map(|(timing, default_ez, kfs)| TlDesc { timing, default_ez, kfs }.sanitize())
 }
 
 pub fn tl_strategy() -> impl Strategy<Value = TlDesc> {
